@@ -347,7 +347,7 @@ class World:
                 st[d] = "none" if e is None else ("orig" if bytes(e[0]) == b and e[1] == fn and e[2] else "dead")
             out["store"][h] = st
             out["awaiting"][h] = {i: [c.ds.output, "ctrl" if c.target == "controller" else c.target,
-                                      "inprog" if at <= 0 else ("stale" if at < now - GRACE_MS * 1_000_000 else "fresh")]
+                                      "inprog" if at <= 0 else ("stale" if Clock.since(at) > GRACE_MS * 1_000_000 else "fresh")]
                                   for i, (c, at) in s.awaiting_confirmation.items()}
             out["futs"][h] = sorted(["send" if fn.__name__ == "send_payload" else "store",
                                      a.idx if isinstance(a, DatasetTransmitCommand) else a.header.confirm_idx]
